@@ -284,6 +284,8 @@ func runC05(c *core.Ctx) {
 	})
 	// a report while another report - other files, other options - is alive in the same process
 	nestedReports(c, pool, c.N(200, 2500), nestedAnyShape)
+	// and requests served one after the other by one application value
+	reusedApp(c, pool, c.N(150, 2000), nestedAnyShape)
 	jobs, deaths := pool.Stats()
 	c.Count("l2_jobs", jobs)
 	c.Count("l2_process_deaths", deaths)
